@@ -366,6 +366,11 @@ func c09JSONDocs(thorough bool) (docs []string) {
 	for _, a := range valV {
 		for _, b := range spkV {
 			vouts = append(vouts, join(a, b, num("n", "0"), num("vout", "1"), txidV[1]))
+			if a == valV[1] {
+				for _, nv := range []string{"-1", "1", "5", "2147483648", "-9223372036854775808", "1e30", `"0"`, "null"} {
+					vouts = append(vouts, join(a, b, num("n", nv)))
+				}
+			}
 		}
 	}
 	// element documents on their own (Output, UTXO, Input targets)
